@@ -168,21 +168,46 @@ class PyRepo:
         return c
 
     def mro(self, ci: ClassInfo) -> list[ClassInfo]:
-        """Linearisation for the single-inheritance chains used here (first base first, depth first)."""
-        out, seen = [], set()
+        """C3 linearisation over the classes of the package (bases outside the package are ignored); falls back to first-base-first
+        depth-first order if the hierarchy is not linearisable."""
+        def key(c):
+            return (c.module, c.name)
 
-        def go(c: ClassInfo):
-            if (c.module, c.name) in seen:
+        def dfs(c, out, seen):
+            if key(c) in seen:
                 return
-            seen.add((c.module, c.name))
+            seen.add(key(c))
             out.append(c)
             for b in c.bases:
                 bc = self.find_class(b, c.module)
                 if bc is not None:
-                    go(bc)
+                    dfs(bc, out, seen)
 
-        go(ci)
-        return out
+        def c3(c, stack):
+            if key(c) in stack:
+                raise ValueError('cycle')
+            bases = [bc for bc in (self.find_class(b, c.module) for b in c.bases) if bc is not None]
+            seqs = [c3(b, stack | {key(c)}) for b in bases] + [list(bases)]
+            out = [c]
+            seqs = [list(q) for q in seqs if q]
+            while seqs:
+                for q in seqs:
+                    head = q[0]
+                    if not any(key(head) in [key(x) for x in r[1:]] for r in seqs):
+                        break
+                else:
+                    raise ValueError('inconsistent hierarchy')
+                out.append(head)
+                seqs = [[x for x in q if key(x) != key(head)] for q in seqs]
+                seqs = [q for q in seqs if q]
+            return out
+
+        try:
+            return c3(ci, frozenset())
+        except ValueError:
+            out: list[ClassInfo] = []
+            dfs(ci, out, set())
+            return out
 
     def find_method(self, ci: ClassInfo, name: str, after: ClassInfo | None = None):
         """(owner, FunctionDef) of `name` looked up from `ci` (or from the class after `after` in the MRO = super())."""
